@@ -288,6 +288,45 @@ CHECKS = {
         "calculator are not modelled; with a supplied tensor only purity, symmetry and axis clauses are checked. The calculator also sets "
         "system._has_system_bath_coupling (an attribute, not H, D or R; noted).",
    design="7/C11", technique="Coq proof (index model over an abstract ring with a root of unity, field-level grid comparison) + in-Coq correspondence with recorded hfft outputs"),
+ "C14": dict(
+   text="Proved in Coq (closed) over Q with numpy.exp as an oracle assumed only to satisfy ex 0 = 1, 0 <= ex x and monotonicity (it MAY "
+        "underflow to 0): with the shift by the minimum the partition sum is >= 1 and _thermal_population returns populations in [0,1] "
+        "summing to 1 for every T >= 0 (zero included), every energy scale, block start and subtract list; no weight exceeds 1; "
+        "populations are proportional to the Boltzmann factors and, with a multiplicative exponential, p_a = ex(-(E_a-E_b)/kT) p_b; the "
+        "shift changes no value the unshifted code could compute; T = 0 and the underflow limit put all population on a lowest state; "
+        "over any *-ring with a non-negativity predicate a diagonal matrix of non-negative reals and the impulsive X rho X are "
+        "Hermitian positive semidefinite (v^+ X rho X^+ v = (X^+ v)^+ rho (X^+ v)); the repaired weak-coupling request denotes W D W^-1 and "
+        "the repaired strong-coupling request recovers site energies for any invertible S: the same physical state in any basis "
+        "context. Refutation witnesses for the pinned tree: 0/0 underflow, T = 0 index, weak outside / strong inside a context - five "
+        "fix: commits. Validated only: float rounding of the pipeline against the exact model (1e-12 / 1e-10), the exp and eigh/inv "
+        "oracle contracts (monitored on every recorded call).",
+   note=TB + "All C14 theorems closed under the global context (no Reals). Tie: direct calls of _thermal_population and "
+        "OpenSystem.get_thermal_ReducedDensityMatrix (blocks of 1-8 states, energies up to +-60000 1/cm, spreads 1-5000 1/cm, exact "
+        "degeneracies, T = 0 and 1e-6..1e4 K) with numpy.exp recorded into an oracle table, populations compared inside Coq (1e-12); "
+        "get_DensityMatrix end to end (2-4 molecules, optional mode and two-exciton band; thermal/weak/strong/impulsive; contexts none, H, "
+        "X, XH, HX) with the model fed the run's S, U, energies and exp table (1e-10; in-context cases above n = 5 are monitored only - a "
+        "cost limit of exact rational arithmetic). Units contexts are not in the property's quantifier (a thermal request inside "
+        "energy_units('1/cm') divides 1/cm energies by kT in internal units: noted, C05-type, not judged here).",
+   design="7/C14", technique="Coq proof (lra/nra/field over Q with an oracle-parameterised model; abstract *-ring for the matrix part) + in-Coq correspondence in exact rational arithmetic with recorded oracle tables"),
+ "C06": dict(
+   text="Proved in Coq (closed) over any commutative *-ring, every Na and number of bath components, with the float comparisons of the "
+        "code as abstract boolean tests: ssRedfieldRateMatrix has column sums equal to the initial diagonal (zero from the caller) for "
+        "ALL inputs whether or not the clamp of small negatives fired; non-negative off-diagonals (clamp inactive) for cc >= 0 and "
+        "symmetric K_k; no transfer to or from the ground state; detailed balance transfers from the bath values to the rates "
+        "(cc(a,b) = beta cc(b,a) for every bath => K[a,b] = beta K[b,a]) and is built into _set_rates (uphill = downhill x Boltzmann "
+        "factor, cut-off test even in omega); golden-rule form sum_k cc_k c_ka^2 c_kb^2 for site projectors and orthogonal S; Foerster "
+        "zero column sums and off-diagonal |H_ab|^2 F; tensor population element R[a,a,b,b] = sum_m (lambda_m + conj lambda_m) K_ab^2; "
+        "the three analytic spectral densities are odd (field over Q); (1 + coth) J obeys C(-w) = e^(-w/kT) C(w), with e = exp(-w/kT) "
+        "abstract and tanh(w/2kT) = (1-e)/(1+e) a hypothesis monitored on numpy (1e-13). Validated only (tolerance computed per case): "
+        "that the spline-through-FFT half-Fourier transform cw_k.at(w) and the tensor's spline quadrature equal (1 + coth) J(w); Foerster "
+        "detailed balance with respect to E_n - lambda_n (T >= 200 K, dt = 0.5 fs, resolved Matsubara terms: 8e-2 + 5e-3 peak overlap; "
+        "the truncated bath model itself breaks the KMS symmetry by a few per cent with the default 10 Matsubara terms).",
+   note=TB + "All C06 theorems closed under the global context (no Reals). Tie: ssRedfieldRateMatrix (Python implementation and the "
+        "dispatching wrapper) on integer KI/cc incl. negatives so that the clamp path runs, several rtol, non-zero initial RR: matrix and "
+        "werror flags compared with = inside Coq; Foerster _reference_implementation with an integer _fintegral table compared with =; "
+        "RedfieldRateMatrix end to end (N = 2-4, 77-400 K) with the run's eigenvalues, S, KK, spline values and Boltzmann factors as "
+        "data (1e-11). Time-dependent Redfield rates and vibronic aggregates are not exercised.",
+   design="7/C06", technique="Coq proof (ring algebra over an abstract *-ring with boolean comparison oracles; field over Q) + in-Coq correspondence (exact on integers, 1e-11 end to end), analytic-reference monitors"),
 }
 NOT_YET = {}
 def main():
